@@ -52,6 +52,10 @@ type LoopSpec struct {
 }
 
 type CallAssert struct {
+	SinceOrdinal int
+	SinceCallee  string
+	SinceFile    string
+	SinceOff     int
 	AtReturn bool
 	File     string
 	Off      int
@@ -297,9 +301,20 @@ func parseContractFile(path string) (*ContractFile, error) {
 				}
 				callee := strings.TrimSuffix(f[3], ":")
 				idx := strings.Index(rest, f[3]) + len(f[3])
+				ca := CallAssert{Before: f[0] == "before", Ordinal: k, Callee: callee}
+				// optional: "since call K NAME:" — old() refers to the state just before that call
+				if len(f) > 8 && f[4] == "since" && f[5] == "call" {
+					sk, err := strconv.Atoi(f[6])
+					if err != nil {
+						return nil, fmt.Errorf("%s:%d: bad since ordinal", path, s.no)
+					}
+					ca.SinceOrdinal, ca.SinceCallee = sk, strings.TrimSuffix(f[7], ":")
+					idx = strings.Index(rest, " "+f[7]) + 1 + len(f[7])
+				}
 				cl := mkClause(rest[idx:], s.no, fmt.Sprintf("a%d", len(cur.Asserts)+1))
 				cl.CurrentParams = true
-				cur.Asserts = append(cur.Asserts, CallAssert{Before: f[0] == "before", Ordinal: k, Callee: callee, Clause: cl})
+				ca.Clause = cl
+				cur.Asserts = append(cur.Asserts, ca)
 			}
 		}
 	}
